@@ -1368,11 +1368,11 @@ pub fn run(cx: &mut Ctx) {
     }
     if enabled("wellformed") {
         let big = cx.tier == Tier::Thorough;
-        let n = cx.n(20_000, 1_000_000);
+        let n = cx.n(60_000, 1_000_000);
         cx.prop_check("wellformed", n, move || if big { wf_case(40, 60, 400, 600) } else { wf_case(40, 60, 0, 0) }, |c, obs| check_wellformed(c, obs));
     }
     if enabled("mutations") {
-        let n = cx.n(200_000, 5_000_000);
+        let n = cx.n(600_000, 5_000_000);
         cx.prop_check("mutations", n, mutated_case, |c, obs| check_byte_case(c, obs));
     }
     if cx.tier == Tier::Thorough {
